@@ -275,6 +275,9 @@ def configs(tier):
                             'split': 32 if dim >= 2 else None, 'engine': {'validate': 20, 'first_timeout_s': 2}})
             out.append({'name': 'position-%s-d%d' % (kind, dim), 'task': 'position', 'args': {'dim': dim, 'kind': kind},
                         'weight': 3 ** dim, 'engine': {'validate': 40}})
+    for kind in kinds:        # size thresholds: more coordinates
+        out.append({'name': 'position-%s-d5' % kind, 'task': 'position', 'args': {'dim': 5, 'kind': kind}, 'weight': 3 ** 5,
+                    'split': 32, 'engine': {'validate': 40}})
     out.append({'name': 'constriction', 'task': 'constriction', 'args': {}, 'weight': 1})
     gb = [(1, 1, 1, 1), (1, 2, 1, 2), (2, 1, 2, 2), (2, 2, 2, 2), (2, 2, 1, 1)]
     if tier == 'thorough':
